@@ -127,6 +127,38 @@ func (in *c15Inst) Enabled() []string {
 			ops = append(ops, fmt.Sprintf("Insert(%d)", sz))
 		}
 	}
+	// the recovery flavour of the insert: redo of an INSERT / undo of an applied delete puts the row back
+	// under the row id the log record names - an existing empty slot (needs no new directory entry: it fits
+	// whenever the row bytes fit), the next slot, or a slot further on (the slots in between are created empty)
+	if in.sc == nil {
+		free, n := in.free(), len(in.slots)
+		seenSz := map[int]bool{}
+		for _, sz := range []int{in.sizes[0], free - 8, free, free + 1} {
+			if sz <= 0 || seenSz[sz] {
+				continue
+			}
+			seenSz[sz] = true
+			for i, s := range in.slots {
+				if !s.live {
+					ops = append(ops, fmt.Sprintf("InsertAt(%d,%d)", i, sz))
+				}
+			}
+			// a logged slot at or beyond the end of the directory can only have been handed out when no earlier
+			// slot was free (the normal insert takes the first free slot): with a free slot around, such a
+			// request is outside what redo/undo can ask for
+			if freeSlot {
+				continue
+			}
+			if n < in.maxSlots {
+				ops = append(ops, fmt.Sprintf("InsertAt(%d,%d)", n, sz))
+			}
+			// a gap: only where the outcome is defined (enough room for the row and all new entries, or not
+			// even room for the row and one entry)
+			if n+1 < in.maxSlots && (free >= sz+16 || free < sz+8) {
+				ops = append(ops, fmt.Sprintf("InsertAt(%d,%d)", n+1, sz))
+			}
+		}
+	}
 	for i, s := range in.slots {
 		if !s.live {
 			continue
@@ -205,7 +237,9 @@ func (in *c15Inst) Key() string {
 func (in *c15Inst) Apply(op string) (viol *core.Violation) {
 	var a, b, c int
 	kind := ""
-	if n, _ := fmt.Sscanf(op, "Insert(%d)", &a); n == 1 {
+	if n, _ := fmt.Sscanf(op, "InsertAt(%d,%d)", &a, &b); n == 2 {
+		kind = "InsertAt"
+	} else if n, _ := fmt.Sscanf(op, "Insert(%d)", &a); n == 1 {
 		kind = "Insert"
 	} else if n, _ := fmt.Sscanf(op, "Update(%d,%d,%d)", &a, &b, &c); n == 3 {
 		kind = "Update"
@@ -272,6 +306,42 @@ func (in *c15Inst) Apply(op string) (viol *core.Violation) {
 		}
 		if err != nil && mustAccept {
 			return bad("free-space", fmt.Sprintf("insert of %d bytes refused (%v) although %d bytes are not occupied", size, err, free))
+		}
+	case "InsertAt":
+		slot, size := a, b
+		n := len(in.slots)
+		ver := 0
+		if slot < n {
+			ver = (in.slots[slot].ver + 1) % 3
+		}
+		data := in.content(slot, ver, size)
+		size = len(data)
+		tpl := tuple.NewTuple(&page.RID{PageID: c15PageID, SlotNum: uint32(slot)}, uint32(size), append([]byte{}, data...))
+		free := in.free()
+		need := size // an existing empty slot: the row bytes must fit
+		if slot >= n {
+			need = size + 8*(slot+1-n)
+		}
+		got, err := in.tp.InsertTuple(tpl, c15Log, nil, in.txn)
+		switch {
+		case err == nil && free < need:
+			return bad("accepted-without-space", fmt.Sprintf("free=%d, the row and its new directory entries need %d", free, need))
+		case err != nil && free >= need:
+			return bad("free-space", fmt.Sprintf("re-insert of %d bytes under slot %d refused (%v) although %d bytes are not occupied and %d are needed", size, slot, err, free, need))
+		case err == nil:
+			if int(got.SlotNum) != slot || got.PageID != c15PageID {
+				return bad("rid", fmt.Sprintf("the row was put under rid %v, the log record names slot %d", *got, slot))
+			}
+			for len(in.slots) <= slot {
+				in.slots = append(in.slots, c15Slot{})
+			}
+			in.slots[slot] = c15Slot{live: true, data: data, ver: ver}
+			in.last = "stored-under-logged-rid"
+			if slot < n && free < size+8 {
+				in.last = "stored-under-logged-rid-without-room-for-an-entry"
+			}
+		default:
+			in.last = "refused"
 		}
 	case "Update", "UpdateP":
 		s := &in.slots[a]
@@ -424,7 +494,7 @@ func init() {
 			if tier == "thorough" {
 				return 20 * time.Minute
 			}
-			return 100 * time.Second
+			return 300 * time.Second
 		},
 		Assume: []string{
 			"A2 operations are issued as TableHeap, TransactionManager.Abort and LogRecovery issue them: ApplyDelete on live or delete-marked slots, RollbackDelete on delete-marked slots, updates of delete-marked rows only to observe the refusal",
